@@ -319,3 +319,52 @@ func VerifC19EveryFileEvaluated() {
 	verifAssert(printed == wantPrinted, "C19/exit-0-although-a-result-was-not-printed")
 	verifCover("C19/everyfile/end")
 }
+
+// VerifC19StreamFailures: a stream of 2-3 documents through the real stream evaluator with an expression that fails
+// for some documents and not for others - among the failures those whose error value is io.EOF itself (from_yaml and
+// friends on an empty string hand the inner decoder's end-of-input through): success exactly when every document
+// evaluates on its own, and then every document's results are printed.
+func VerifC19StreamFailures() {
+	docs := []string{"a: \"x: 1\"\n", "a: \"\"\n", "a: \"[\"\n", "a: 5\n", "a: \" \"\n", "b: 1\n"}
+	exprs := []string{".a | from_yaml", ".a | @base64d", ".a | test(\"[\")", ".a | from_csv", ".a | to_number", ".a | from_yaml | .x", ".a |= from_yaml", ".a | @urid", ".a | from_tsv"}
+	expr := exprs[verifChoice("expr", len(exprs))]
+	n := 2 + verifChoice("documents", 2)
+	run := func(text string) (printed int, ok bool) {
+		var events []string
+		var out bytes.Buffer
+		printer := NewPrinter(&c10Encoder{events: &events}, NewSinglePrinterWriter(&out))
+		ev := NewStreamEvaluator()
+		if _, err := ev.Evaluate("f.yml", strings.NewReader(text), vParse(expr), printer, NewYamlDecoder(NewDefaultYamlPreferences())); err != nil {
+			return 0, false
+		}
+		for _, e := range events {
+			if strings.HasPrefix(e, "NODE ") {
+				printed++
+			}
+		}
+		return printed, true
+	}
+	text := ""
+	allOK := true
+	want := 0
+	for i := 0; i < n; i++ {
+		d := docs[verifChoice("doc"+verifItoa(int64(i)), len(docs))]
+		if i > 0 {
+			text += "---\n"
+		}
+		text += d
+		p, ok := run(d)
+		allOK = allOK && ok
+		want += p
+	}
+	verifObserve("text", text)
+	got, ok := run(text)
+	label := " expr=" + expr
+	verifAssert(ok == allOK, "C19/stream-succeeds-although-a-document-failed (or fails although none did)"+label)
+	if !ok || !allOK {
+		verifCover("C19/stream-failures/error")
+		return
+	}
+	verifAssert(got == want, "C19/exit-0-although-a-result-was-not-printed"+label)
+	verifCover("C19/stream-failures/end")
+}
